@@ -2,6 +2,7 @@ import Jose.Jwe
 import Jose.Lemmas.B64
 import Jose.Lemmas.Json
 import Jose.Props.C02
+import Jose.Lemmas.Entity
 /-
   C04 — JWE encrypt/decrypt round trip; what is produced, bit for bit.
   Statements about `Jwe.encCek`, `Jwe.sealWith` / `Jwe.openWith`, `Jwe.wrp` / `Jwe.unw`.
@@ -137,5 +138,114 @@ theorem enc_then_open (P : Prims) (hg : GcmLaw P) (hc : CbcLaw P) (hz : ZipLaw P
     exact this
   · rw [seal_open P hg hc a.name fam h2]
     cases zip <;> simp [hz _]
+
+
+/-! ### key management: what is wrapped unwraps (AES key wrap, AES-GCM key wrap, direct key)
+
+  The recipient object a wrapper builds is, after `add_entity`, found unchanged (listed members) at its
+  position in the JWE (C16); the theorems below therefore speak about that recipient object directly. -/
+
+/-- RFC 3394: what is wrapped unwraps, and a wrapped key is a byte string 8 bytes longer -/
+def KwLaw (P : Prims) : Prop :=
+  ∀ kek pt ct, P.kwWrap kek pt = some ct → P.kwUnwrap kek ct = some pt ∧ Bytes ct ∧ ct.length = pt.length + 8
+
+theorem bytesOfJson_enc (b : Bs) (hb : Bytes b) : bytesOfJson (some (B64.enc b)) = some b := by
+  have := dec_enc_json b hb
+  simp only [B64.enc] at this ⊢
+  simp [bytesOfJson, this]
+
+/-- what AES key wrapping stores: the recipient object gets `encrypted_key` = base64url of the RFC 3394
+    wrapping of exactly the CEK's bytes under exactly the key's `k` (of the algorithm's length), and is
+    then added to the JWE -/
+theorem wrp_aeskw_spec (P : Prims) (name : String) (klen fuel : Nat) (jwe jwk cek jwe' cek' : Json)
+    (rkvs : List (String × Json)) (rnd : Bs) (hf : wrapFamily name = some (.aeskw klen))
+    (h : wrp P (fuel + 1) name jwe (.obj rkvs) jwk cek rnd = some (jwe', cek')) :
+    ∃ kek pt ct, exactKey jwk "k" klen = some kek ∧ bytesOfJson (cek'.get? "k") = some pt ∧ pt.length ≤ keymax ∧
+      P.kwWrap kek pt = some ct ∧
+      addEntity jwe (some (.obj (setKV "encrypted_key" (B64.enc ct) rkvs))) "recipients" RCPKEYS = some jwe' := by
+  simp only [wrp, hf, Option.bind_eq_some_iff] at h
+  obtain ⟨⟨c1, r1⟩, hgen, kek, hk, pt, hpt, hrest⟩ := h
+  split at hrest
+  · simp at hrest
+  · rename_i hlen
+    simp only [Option.bind_eq_some_iff, Option.map_eq_some_iff, Prod.mk.injEq] at hrest
+    obtain ⟨ct, hct, j, hadd, rfl, rfl⟩ := hrest
+    exact ⟨kek, pt, ct, hk, hpt, by omega, hct, hadd⟩
+
+/-- **C04 (key management round trip, AES key wrap).**  The recipient object AES-KW wrapping builds,
+    handed to the unwrapper with the same key, yields a CEK whose `k` is exactly the wrapped CEK's `k`
+    — wherever that recipient object ends up in the JWE (flattened or in the list: C16) and whatever
+    else the JWE holds. -/
+theorem aeskw_wrap_then_unwrap (P : Prims) (hkw : KwLaw P) (name : String) (klen fuel fuel' : Nat)
+    (jwe jweAny jwk cek jwe' cek' : Json) (rkvs c : List (String × Json)) (rnd rnd' : Bs)
+    (hf : wrapFamily name = some (.aeskw klen))
+    (h : wrp P (fuel + 1) name jwe (.obj rkvs) jwk cek rnd = some (jwe', cek')) :
+    ∃ pt ct, bytesOfJson (cek'.get? "k") = some pt ∧
+      unw P (fuel' + 1) name jweAny (.obj (setKV "encrypted_key" (B64.enc ct) rkvs)) jwk (.obj c) rnd'
+        = some (.obj (setKV "k" (B64.enc pt) c)) := by
+  obtain ⟨kek, pt, ct, hk, hpt, hlen, hw, _⟩ := wrp_aeskw_spec P name klen fuel jwe jwk cek jwe' cek' rkvs rnd hf h
+  obtain ⟨hu, hb, hl⟩ := hkw kek pt ct hw
+  refine ⟨pt, ct, hpt, ?_⟩
+  have hnot : ¬ (keymax + 16 < ct.length) := by omega
+  simp only [unw, hf, hk, Option.bind_some, get?, lookup_setKV_same, bytesOfJson_enc ct hb, hnot, if_false, hu, Option.map_some]
+
+/-- what AES-GCM key wrapping stores: a fresh 12-byte IV from the random stream, `encrypted_key` and `tag`
+    = AES-GCM (no associated data) of exactly the CEK's bytes under exactly the key's `k`; IV and tag go into
+    the per-recipient header -/
+theorem wrp_gcmkw_spec (P : Prims) (name : String) (klen fuel : Nat) (jwe jwk cek jwe' cek' : Json)
+    (rkvs : List (String × Json)) (rnd : Bs) (hf : wrapFamily name = some (.gcmkw klen))
+    (h : wrp P (fuel + 1) name jwe (.obj rkvs) jwk cek rnd = some (jwe', cek')) :
+    ∃ kek pt iv hkv, exactKey jwk "k" klen = some kek ∧ bytesOfJson (cek'.get? "k") = some pt ∧ iv.length ≤ 12 ∧
+      (match lookup "header" rkvs with | none => some [] | some (.obj hh) => some hh | some _ => none) = some hkv ∧
+      addEntity jwe (some (.obj (setKV "encrypted_key" (B64.enc (P.gcmEnc kek iv [] pt).1)
+        (setKV "header" (.obj (setKV "tag" (B64.enc (P.gcmEnc kek iv [] pt).2) (setKV "iv" (B64.enc iv) hkv))) rkvs))))
+        "recipients" RCPKEYS = some jwe' := by
+  simp only [wrp, hf, Option.bind_eq_some_iff] at h
+  obtain ⟨⟨c1, r1⟩, hgen, pt, hpt, kek, hk, hkv, hh, hrest⟩ := h
+  simp only [Option.map_eq_some_iff, Prod.mk.injEq] at hrest
+  obtain ⟨j, hadd, rfl, rfl⟩ := hrest
+  exact ⟨kek, pt, r1.take 12, hkv, hk, hpt, by simp [List.length_take]; omega, hh, hadd⟩
+
+/-- **C04 (key management round trip, AES-GCM key wrap).**  If the merged header the unwrapper sees shows the
+    IV and tag the wrapper put into the per-recipient header (i.e. no more trusted header defines `iv`/`tag`),
+    unwrapping the stored `encrypted_key` with the same key gives back exactly the CEK bytes. -/
+theorem gcmkw_unwrap_of_wrapped (P : Prims) (hg : GcmLaw P) (name : String) (klen fuel' : Nat)
+    (jweAny rcp jwk : Json) (c : List (String × Json)) (kek pt iv : Bs) (rnd' : Bs) (hdr : Json)
+    (hf : wrapFamily name = some (.gcmkw klen)) (hk : exactKey jwk "k" klen = some kek)
+    (hiv : iv.length = 12) (hbi : Bytes iv)
+    (hbc : Bytes (P.gcmEnc kek iv [] pt).1) (hbt : Bytes (P.gcmEnc kek iv [] pt).2)
+    (hh : jweHdr jweAny (some rcp) = some hdr)
+    (h1 : hdr.get? "iv" = some (B64.enc iv)) (h2 : hdr.get? "tag" = some (B64.enc (P.gcmEnc kek iv [] pt).2))
+    (h3 : rcp.get? "encrypted_key" = some (B64.enc (P.gcmEnc kek iv [] pt).1)) :
+    unw P (fuel' + 1) name jweAny rcp jwk (.obj c) rnd' = some (.obj (setKV "k" (B64.enc pt) c)) := by
+  obtain ⟨htag, hopen⟩ := hg kek iv [] pt
+  have eiv : exactKey (.obj [("iv", B64.enc iv)]) "iv" 12 = some iv := by
+    have := exactKey_enc [] "iv" iv hbi
+    simpa [setKV, hiv] using this
+  have ect := dec_enc_json (P.gcmEnc kek iv [] pt).1 hbc
+  have etag := bytesOfJson_enc (P.gcmEnc kek iv [] pt).2 hbt
+  simp only [unw, hf, hh, Option.bind_some, h1, h2, h3]
+  simp only [B64.enc] at ect ⊢
+  simp only [B64.enc] at eiv etag
+  simp only [eiv, hk, ect, etag, Option.bind_some, htag, ne_eq, not_true_eq_false, if_false, hopen, Option.map_some]
+
+/-- **C04 (key management round trip, direct key).**  With `dir` the content key on both sides is the
+    shared key itself: after wrapping, the CEK's `k` is the key's `k`, and unwrapping (any recipient object,
+    any JWE) with the same key yields a CEK with that same `k`. -/
+theorem dir_wrap_then_unwrap (P : Prims) (name : String) (fuel fuel' : Nat) (jwe jwe2 rcp2 jwe' cek' : Json)
+    (rkvs k c0 c : List (String × Json)) (v : Json) (rnd rnd' : Bs)
+    (hf : wrapFamily name = some .dir) (hnd : (k.map Prod.fst).Nodup) (hk : lookup "k" k = some v)
+    (hc : lookup "k" c0 = none)
+    (h : wrp P (fuel + 1) name jwe (.obj rkvs) (.obj k) (.obj c0) rnd = some (jwe', cek')) :
+    cek'.get? "k" = some v ∧
+    ∃ cek2, unw P (fuel' + 1) name jwe2 rcp2 (.obj k) (.obj c) rnd' = some cek2 ∧ cek2.get? "k" = some v := by
+  constructor
+  · simp only [wrp, hf, get?, hc, Option.bind_eq_some_iff, Option.map_eq_some_iff, Prod.mk.injEq] at h
+    obtain ⟨ck, hck, j, _, rfl, rfl⟩ := h
+    simp only [Option.some.injEq] at hck
+    subst hck
+    simp [get?, lookup_updateKV c0 k "k" hnd, hk]
+  · refine ⟨.obj (updateKV c k), by simp [unw, hf], ?_⟩
+    simp [get?, lookup_updateKV c k "k" hnd, hk]
 
 end Jose.Props.C04
